@@ -5,6 +5,9 @@ from engine.rulekit import mir as M
 from engine.rulekit import og
 from engine.rulekit import scans
 from rules import c02 as C02
+from rules import anchors as A
+
+_SPLIT = [None]   # path of the QName splitter of the tree being analysed (set in run)
 
 XSD_NS = "http://www.w3.org/2001/XMLSchema"
 NS_PARAM_TY = "std::option::Option<&model::Namespace>"
@@ -20,7 +23,7 @@ def _prefix_unbound(CE, cond, branch):
         return False
 
     def prefix(n):
-        return isinstance(n, tuple) and ((n[0] == "field" and n[2] == "1" and isinstance(n[1], tuple) and n[1][0] == "call" and str(n[1][1]).endswith("split_type"))
+        return isinstance(n, tuple) and ((n[0] == "field" and n[2] == "1" and isinstance(n[1], tuple) and n[1][0] == "call" and str(n[1][1]) == _SPLIT[0])
                                          or any(prefix(x) for x in n if isinstance(x, tuple)))
     positive = False
     for call in og.nf_calls(c):
@@ -48,25 +51,33 @@ def run(ck, F):
     ck.rule("R4", "kind-dependent selection: by-name selections filter on the component kind the reference requires")
     ck.rule("R6", "prefix tables are not overwritten by imports")
     CE = og.CallExpander(F)
+    _SPLIT[0] = A.qname_splitter(F)
     # ---- R1
-    nf = CE.expand(("call", "model::field::split_type", (("param", "t"),)))
-    cases = {"p:N": ("N", fde.some("p")), "N": ("N", None), "a:b:c": ("b:c", fde.some("a")), "": ("", None)}
-    for inp, want in cases.items():
-        try:
-            v = fde.Evaluator({("param", "t"): inp}).ev(nf)
-            got = (v[1][0], v[1][1]) if isinstance(v, tuple) and v[0] == "tuple" else v
-        except fde.Undecided as u:
-            ck.undecided("R1", f"split:{inp!r}", "zeep-lib/src/model/field.rs", f"split_type not evaluable: {u}")
-            continue
-        if got == want:
-            ck.ok("R1", f"split:{inp!r}", "model::field::split_type", f"split_type({inp!r}) = {got}")
-        else:
-            ck.violation("R1", f"split:{inp!r}", "model::field::split_type", f"split_type({inp!r}) = {got}, XML Namespaces prescribes {want}")
-    rt = og.nf_str(CE.expand(("call", "model::field::resolve_type", (("param", "t"), ("param", "doc")))))
-    if "get(doc.namespace_lookup" in rt:
-        ck.ok("R1", "prefix-lookup", "model::field::resolve_type", "the prefix is looked up in doc.namespace_lookup")
+    SPLIT = A.qname_splitter(F)
+    RESOLVE = A.qname_resolver(F)
+    if SPLIT is None or RESOLVE is None:
+        ck.undecided("R1", "anchor", "-", f"the QName splitter `fn(&str) -> (&str, Option<&str>)` / resolver `fn(&str, &RustDocument) -> (&str, Option<Rc<Namespace>>)` "
+                     f"could not be attributed uniquely ({SPLIT}, {RESOLVE})")
     else:
-        ck.violation("R1", "prefix-lookup", "model::field::resolve_type", f"resolve_type does not look the prefix up in the prefix table: {rt[:160]}")
+        s_short, r_short = SPLIT.rsplit("::", 1)[-1], RESOLVE.rsplit("::", 1)[-1]
+        nf = CE.expand(("call", SPLIT, (("param", "t"),)))
+        cases = {"p:N": ("N", fde.some("p")), "N": ("N", None), "a:b:c": ("b:c", fde.some("a")), "": ("", None)}
+        for inp, want in cases.items():
+            try:
+                v = fde.Evaluator({("param", "t"): inp}).ev(nf)
+                got = (v[1][0], v[1][1]) if isinstance(v, tuple) and v[0] == "tuple" else v
+            except fde.Undecided as u:
+                ck.undecided("R1", f"split:{inp!r}", (F.lib.body(SPLIT) or {}).get("span", "-"), f"{s_short} not evaluable: {u}")
+                continue
+            if got == want:
+                ck.ok("R1", f"split:{inp!r}", SPLIT, f"{s_short}({inp!r}) = {got}")
+            else:
+                ck.violation("R1", f"split:{inp!r}", SPLIT, f"{s_short}({inp!r}) = {got}, XML Namespaces prescribes {want}")
+        rt = og.nf_str(CE.expand(("call", RESOLVE, (("param", "t"), ("param", "doc")))))
+        if "get(doc.namespace_lookup" in rt:
+            ck.ok("R1", "prefix-lookup", RESOLVE, "the prefix is looked up in doc.namespace_lookup")
+        else:
+            ck.violation("R1", "prefix-lookup", RESOLVE, f"{r_short} does not look the prefix up in the prefix table: {rt[:160]}")
     # ---- R2
     X = None
     b = F.lib.body("model::node::collect_namespaces_on_node")
@@ -160,7 +171,8 @@ def run(ck, F):
     # ---- R3 / R4: by-name selections
     live = scans.api_reachable(F.lib)
     n_sel = 0
-    for fb in F.lib.bodies:
+    sel_roles = {}
+    for fb in sorted(F.lib.bodies, key=lambda b_: b_.get("span", "")):
         if fb.get("closure") or not fb.get("mir") or fb["path"] not in live:
             continue
         B = M.Body(fb)
@@ -171,7 +183,21 @@ def run(ck, F):
         if not name_params:
             continue
         n_sel += 1
-        short = fb["path"].rsplit("::", 1)[-1]
+        fname = fb["path"].rsplit("::", 1)[-1]
+        # keyed by what the function selects from, not by its name: the document's component registry, the XML tree, a WSDL collection
+        reads_ = " ".join(str(s_["rv"]) for i_ in sorted(B.reach) for s_ in B.blocks[i_]["stmts"] if s_["k"] == "assign")
+        over = []
+        if "'f': 'nodes'" in reads_:
+            over.append("registry")
+        if any((M.Body.callee_decl(t_) or "").endswith(("::descendants", "::children")) for _, t_ in B.calls()):
+            over.append("xml")
+        for c_ in ("soap_messages", "soap_ports", "soap_bindings"):
+            if f"'f': '{c_}'" in reads_:
+                over.append(c_)
+        short = ("+".join(over) or "other") + "-lookup"
+        sel_roles[short] = sel_roles.get(short, 0) + 1
+        if sel_roles[short] > 1:
+            short += f"#{sel_roles[short]}"
         # WSDL-level components (messages, port types, bindings) live in typed collections of the single WSDL namespace:
         # their kind is the collection's type and they are outside the references the property lists.
         reads = " ".join(f for i in sorted(B.reach) for s in B.blocks[i]["stmts"] if s["k"] == "assign"
@@ -179,14 +205,14 @@ def run(ck, F):
         typed = [c for c in ("soap_messages", "soap_ports", "soap_bindings") if f"'f': '{c}'" in reads]
         if typed and "'f': 'nodes'" not in reads:
             ck.ok("R3", f"{short}:wsdl-collection", fb["span"],
-                  f"{short} selects from the typed collection {typed[0]} of the WSDL document (single definitions namespace; outside the claim)", fn=short)
+                  f"{fname} selects from the typed collection {typed[0]} of the WSDL document (single definitions namespace; outside the claim)", fn=short)
             continue
         for l in ns_params:
             uses = [u for u in M.uses_of_local(B, l) if u[1] != "drop"]
             pname = B.local_name(l) or f"_{l}"
             if not uses:
                 ck.violation("R3", f"{short}:namespace-ignored", fb["span"],
-                             f"{short} selects a component by name but never reads the namespace of the reference (`{pname}`): a component "
+                             f"{fname} selects a component by name but never reads the namespace of the reference (`{pname}`): a component "
                              f"with the same local name in another namespace is returned", fn=short)
             else:
                 # if the selection is a closure predicate, it must capture the namespace; passing it on to a callee is judged there
@@ -245,12 +271,12 @@ def run(ck, F):
                         sel_bad.append(B.term(sbb).get("sp"))
                 if sel_bad:
                     ck.violation("R3", f"{short}:namespace-not-in-predicate", sel_bad[0],
-                                 f"{short}: a component is selected by a predicate that does not look at the namespace of the reference (`{pname}`): "
+                                 f"{fname}: a component is selected by a predicate that does not look at the namespace of the reference (`{pname}`): "
                                  f"a component with the same local name in another namespace is returned", fn=short)
                 elif captured or passed:
-                    ck.ok("R3", f"{short}:namespace-used", fb["span"], f"{short}: the reference's namespace is " + ("captured by the selection predicate" if captured else "passed on"), fn=short)
+                    ck.ok("R3", f"{short}:namespace-used", fb["span"], f"{fname}: the reference's namespace is " + ("captured by the selection predicate" if captured else "passed on"), fn=short)
                 else:
-                    ck.violation("R3", f"{short}:namespace-not-in-predicate", fb["span"], f"{short}: `{pname}` is read but not by the selection predicate", fn=short)
+                    ck.violation("R3", f"{short}:namespace-not-in-predicate", fb["span"], f"{fname}: `{pname}` is read but not by the selection predicate", fn=short)
         # every found component that is returned must depend on the namespace of the reference: by data (selected by a predicate or
         # callee that received it) or by control (a test on it dominates the return)
         for l in ns_params:
@@ -277,18 +303,18 @@ def run(ck, F):
                     ctrl = any(B.dominates(sw, i) and sw != i for sw in ns_switches)
                     if not (data or ctrl):
                         ck.violation("R3", f"{short}:result-independent-of-namespace", site_ or fb["span"],
-                                     f"{short} can return a component that was selected without looking at the namespace of the reference "
+                                     f"{fname} can return a component that was selected without looking at the namespace of the reference "
                                      f"(neither the value returned nor a test dominating this return depends on `{B.local_name(l) or l}`)", fn=short)
                     else:
                         ck.ok("R3", f"{short}:result-depends-on-namespace", site_ or fb["span"],
-                              f"{short}: the returned component depends on the reference's namespace ({'data' if data else 'control'})", fn=short)
+                              f"{fname}: the returned component depends on the reference's namespace ({'data' if data else 'control'})", fn=short)
         # R4 kind
         kinds = _mentions_kind(F, fb)
         if kinds:
-            ck.ok("R4", f"{short}:kind", fb["span"], f"{short} filters on the component kind ({kinds})", fn=short)
+            ck.ok("R4", f"{short}:kind", fb["span"], f"{fname} filters on the component kind ({kinds})", fn=short)
         else:
             ck.violation("R4", f"{short}:kind-ignored", fb["span"],
-                         f"{short} selects by name (and namespace) only: a reference can bind to a component of another kind that carries the same name", fn=short)
+                         f"{fname} selects by name (and namespace) only: a reference can bind to a component of another kind that carries the same name", fn=short)
     ck.floor("R3", "by-name selection functions", n_sel, 5)
     # builtin decision: wherever as_rust_type consults the builtin table (the match, the constant table, a helper holding either),
     # it does so only on the paths on which the prefix of the reference was found not to name a namespace of the document
@@ -300,7 +326,7 @@ def run(ck, F):
         users = (set(C02.TABLE_LOOKUP.get(holder, [])) | {holder}) - {C02.AS_RUST_TYPE}
         class _CE(og.CallExpander):
             def summary(self, path):
-                if str(path).endswith("split_type") or "doc::RustDocument::" in str(path):
+                if str(path) == _SPLIT[0] or "doc::RustDocument::" in str(path):
                     return None
                 return super().summary(path)
         CE = _CE(F)
